@@ -11,6 +11,8 @@ CHECKS = {
             dict(pkg="server", harness="VfC05_isNewMaster", bounds="all 2^256 (candidate, existing) id pairs; no loops"),
             dict(pkg="server", harness="VfC05_runElection", reach=["end", "accepted", "zero-id", "not-single-primary", "unknown-session"],
                  bounds="session table {A,B} each present/absent with arbitrary parameters and last id; arbitrary election state; announcing session any string; id any 128-bit value"),
+            dict(pkg="server", harness="VfC05_concurrent", reach=["end"], validate=0, replay_attempts=3, opts=dict(unwind=16),
+                 bounds="two sessions announce arbitrary non-zero 128-bit ids CONCURRENTLY (real runElection in two goroutines); every schedule with up to 2 pre-emptive context switches at synchronisation points; quiescent primary / current id = maximum and its announcer, each response between the announced id and the maximum (native replay: 300 000 rounds of real goroutines)"),
             dict(pkg="server", harness="VfC05_runElection3", quick=dict(skip=True), reach=["end", "accepted", "zero-id", "not-single-primary", "unknown-session"], bounds="as runElection with a session table {A,B,C}"),
         ],
         assumptions=[],
@@ -138,7 +140,7 @@ CHECKS["C16"] = dict(
           dict(pkg="rib", harness="VfC16_mirror_t", reach=["end", "pre-built"], quick=dict(skip=True), opts=dict(only=["C16:"]),
                bounds="as mirror_q with all top-level kinds, slots in either instance, optional payload fields, groups of <=2 members"),
           dict(pkg="rib", harness="VfC16_flush", reach=["end", "pre-built"], opts=dict(only=["C16:"]), bounds="notifications issued by Flush of {default}, {vrf}, both"),
-          dict(pkg="rib", harness="VfC16_resolved", reach=["end"], opts=dict(only=["C16:"]), bounds="resolved-entry hook: ADD then DELETE of a symbolic IPv4/IPv6/MPLS entry; snapshots checked for content, privacy and stability"),
+          dict(pkg="rib", harness="VfC16_resolved", reach=["end", "back-to-back"], replay_attempts=5, opts=dict(only=["C16:"]), bounds="resolved-entry hook: ADD then DELETE of a symbolic IPv4/IPv6/MPLS entry, the consumer running after each change or only after both (back to back); snapshots checked for content at the moment of the change, privacy and stability"),
           dict(pkg="server", harness="VfC16_serverHooks", reach=["end"], bounds="server.New with the hook and VRF options in either order, plus AddNetworkInstance afterwards; one change per instance")],
     assumptions=["ygot.DeepCopy is modelled as a structural deep copy of the heap graph"],
     level_text="Bounded symbolic execution: a consumer folding the notifications is compared with the reference state after every operation, cascade and Flush; server construction is executed for both option orders.",
@@ -176,6 +178,7 @@ CHECKS["C17"] = dict(
     runs=[dict(pkg="chk", harness="VfC17_hasResult", reach=["end"],
                bounds="0-2 results and one wanted result, each with symbolic operation id, status, optional server error, optional details (ADD/DELETE x next-hop-group / next-hop / IPv4 / IPv6 / MPLS key); all four option combinations"),
           dict(pkg="chk", harness="VfC17_hasResultsCache", reach=["end"], bounds="as hasResult; compared with the specification of the plain checker"),
+          dict(pkg="chk", harness="VfC17_hasResultsCache2", reach=["end"], bounds="TWO wanted results of independent shapes (with / without details, any kind, symbolic ids / keys) against 0-1 results, all option combinations: passes iff every want is present, each judged by its own fields"),
           dict(pkg="chk", harness="VfC17_getResponseHasEntries", reach=["end"], bounds="Get response of 0-2 entries (5 kinds, symbolic key and network instance) and one wanted entry built with the fluent API"),
           dict(pkg="chk", harness="VfC17_errorCounts", reach=["end"], bounds="error nil / ClientErr with 0-2 send and receive errors / other error; wanted count 0-3"),
           dict(pkg="chk", harness="VfC17_recvStatus", reach=["end"], thorough=dict(skip=True), bounds="ClientErr with 0-1 receive error (plain error or status with one of 3 codes, 2 messages, optional details with 2 reasons) or a non-client error; wanted status likewise; AllowUnimplemented x IgnoreDetails"),
@@ -209,6 +212,8 @@ CHECKS["C18"] = dict(
 CHECKS["C15"] = dict(
     runs=[dict(pkg="rib/reconciler", harness="VfC15_reconcile_q", load=["rib/reconciler"], reach=["end", "built"], thorough=dict(skip=True), opts=dict(only=["C15:"]),
                bounds="intended and target RIB each built canonically with symbolic contents (1 next-hop, 1 group <=1 member, 1 IPv4/MPLS entry in either of two instances, all optional), optionally a third instance only the target has (one next-hop); Reconcile, operations applied to the target's real RIB in the documented order, result compared with the intended reference; second Reconcile must be empty; symbolic id base"),
+          dict(pkg="rib/reconciler", harness="VfC15_reconcile_qx", load=["rib/reconciler"], reach=["end", "built"], opts=dict(only=["C15:"]),
+               bounds="cross-instance references: on each side next-hop 1 in both instances, an optional group (symbolic id) in each instance, one optional IPv4 entry (symbolic prefix / group id) in either instance whose group instance is unset (its own instance) or explicit (either instance); Reconcile, apply in order, compare, second Reconcile empty"),
           dict(pkg="rib/reconciler", harness="VfC15_reconcile_t", load=["rib/reconciler"], reach=["end", "built"], quick=dict(skip=True), opts=dict(only=["C15:"], budget_s=1500),
                bounds="as reconcile_q with 2 next-hops, groups of <=2 members (make-before-break swaps), all three top-level kinds")],
     assumptions=["LocalRIB targets only; RemoteRIB (gRPC Get + FromGetResponses) is covered by C07's FromGetResponses check, the transport is outside", "ConcreteXXXProto / candidateRIB / MergeStructInto / DeepCopy / DeepEqual are the models and structural stubs of DESIGN.md section 4"],
@@ -216,8 +221,8 @@ CHECKS["C15"] = dict(
     level_note=_RIBNOTE)
 
 CHECKS["C10"] = dict(
-    runs=[dict(pkg="server", harness="VfC10_modifyCut", reach=["end", "cut-done", "probe-done"], validate=2,
-               bounds="real Server.Modify (3 goroutines) on a scripted session [params, election, ADD, batch of 2 ADDs] cut off after 0-4 messages by EOF / Canceled / transport error, or whose Send fails from response 0-4 on (incl. between the results of one request); then a probe: new session (negotiate, higher id, ADD), Get, Flush; deterministic schedule"),
+    runs=[dict(pkg="server", harness="VfC10_modifyCut", reach=["end", "cut-done", "probe-done", "with-standby"], validate=2,
+               bounds="real Server.Modify (3 goroutines), optionally with a standby session attached that announced ANY lower 128-bit id before, on a scripted session [params, election, ADD, batch of 2 ADDs] cut off after 0-4 messages by EOF / Canceled / transport error, or whose Send fails from response 0-4 on (incl. between the results of one request); then a probe: new session (negotiate, higher id, ADD), Get, Flush; deterministic schedule"),
           dict(pkg="server", harness="VfC10_getCut", reach=["end", "cut-done", "probe-done"], validate=2,
                bounds="real Server.Get over 3 installed next-hops whose stream fails after 0-3 responses; then the same probe (its ADD writes to the instance the abandoned Get was reading)"),
           dict(pkg="server", harness="VfC10_modifyCutSched", reach=["end"], quick=dict(skip=True), validate=0, replay_attempts=20, opts=dict(unwind=16),
